@@ -9,6 +9,8 @@ params:
   cancels   [times]   (each from its own thread)
   cbs       [times]   add_done_callback calls (each from its own thread)
   waits     [[time, kind]]  kind in result | exception | wait | as_completed
+  probes    [[time, n, gap]]  a client calls running(), done() and cancelled() n times, gap ticks apart (each from its
+            own thread): the queries never raise, done() never goes back to False
   recancel  None | "input": a done-callback registered on the underlying future (delegate future / first input)
             BEFORE the library registers its own calls cancel() on the returned future - re-entering a cancel()
             that is being forwarded, or cancelling from inside the completion of the underlying work;
@@ -159,6 +161,26 @@ def build(p):
                 pass
             E.emit("WaitRet", f=1, k=k)
 
+        def prober(t, n, gap, k):
+            E.vsleep(t)
+            for _ in range(n):
+                for name in ("running", "done", "cancelled"):
+                    E.upoint()
+                    try:
+                        r = getattr(fut, name)()
+                    except E.SchedAbort:
+                        raise
+                    except BaseException as ex:
+                        E.emit("ProbeRaise", f=1, k=k, s=name, x=type(ex).__name__)
+                        continue
+                    # (b = 1: the answer was not a bool - MapFuture.running() answers None while it has no delegate, e.g. a
+                    #  queued throttle future; recorded, not judged: the property does not spell the return type out)
+                    E.emit("ProbeRet", f=1, k=k, s=name, a=1 if r else 0, b=0 if isinstance(r, bool) else 1)
+                if gap:
+                    E.vsleep(gap)
+
+        for i, (t, n, gap) in enumerate(p.get("probes", [])):
+            E.spawn("probe%d" % i, prober, t, n, gap, i + 1)
         for i, t in enumerate(p.get("cancels", [])):
             E.spawn("can%d" % i, canceller, t)
         for i, t in enumerate(p.get("cbs", [])):
